@@ -7,6 +7,9 @@ extern crate alloc;
 
 pub mod util;
 pub mod exp;
+pub mod world;
+pub mod c01;
 pub mod c02;
 pub mod c03;
+pub mod c06;
 pub mod c10;
